@@ -21,7 +21,11 @@ theorem area_sum (N M : Nat) (hN : 0 < N) (hM : 0 < M) (f : Nat → Rat) :
     sumRange M (fun j => areaResample1 N M f j * ((N : Rat) / (M : Rat))) = sumRange N f :=
   areaResample1_sum N M hN hM f
 
-/-- `Resize(..., conservative)` in 2-D conserves the array sum for every input and target shape. -/
+/-- The MODEL of `Resize(..., conservative)` (separable area resampling × ratio of pixel counts) conserves the array sum for
+every input and target shape.  `cv2.resize(INTER_AREA)` realises this model only inside the property's quantifier —
+both target extents not larger (pure shrinking) or both integer multiples (pure enlargement); for MIXED targets (one axis
+shrunk by more than 2 while the other is enlarged) OpenCV switches to a 2-tap kernel and is not conservative
+(3×5 → 6×3: sum 1240 → 1223).  The check sends only targets inside the quantifier. -/
 theorem conservative_resize_sum (n1 n2 m1 m2 : Nat) (hn1 : 0 < n1) (hn2 : 0 < n2) (hm1 : 0 < m1) (hm2 : 0 < m2)
     (f : Nat → Nat → Rat) :
     sumRange m1 (fun j1 => sumRange m2 fun j2 => conservativeResize2 n1 n2 m1 m2 f j1 j2)
